@@ -97,6 +97,11 @@ def _ondemand_names():
   return sorted(stack[-1]) if stack else []
 
 
+def _deepcopy(x):
+  import copy
+  return copy.deepcopy(x)
+
+
 def _timing_name():
   ctx = pg_tls.thread_local_get('__timing_context__', None)
   names = []
@@ -130,8 +135,10 @@ def _rows():
        lambda: dict(pg_tls.thread_local_kwargs(pg_fmt._TLS_STR_FORMAT_KWARGS)), 'merge', {}),   # pylint: disable=protected-access
       ('repr_format', lambda kw: pg.repr_format(**kw), [dict(compact=True), dict(compact=False, verbose=False)],
        lambda: dict(pg_tls.thread_local_kwargs(pg_fmt._TLS_REPR_FORMAT_KWARGS)), 'merge', {}),   # pylint: disable=protected-access
-      ('view_options', lambda kw: pg.view_options(**kw), [dict(collapse_level=1), dict(collapse_level=2, key_style='label')],
-       lambda: dict(pg_tls.thread_local_peek(pg_views._TLS_KEY_VIEW_OPTIONS, {})), 'merge', {}),   # pylint: disable=protected-access
+      ('view_options', lambda kw: pg.view_options(**_deepcopy(kw)),       # (the caller's dicts stay the caller's)
+       [dict(collapse_level=1), dict(collapse_level=2, key_style='label'), dict(extra_flags=dict(fa=True)),
+        dict(extra_flags=dict(fb=True), collapse_level=3)],
+       lambda: _deepcopy(dict(pg_tls.thread_local_peek(pg_views._TLS_KEY_VIEW_OPTIONS, {}))), 'deep_merge', {}),   # pylint: disable=protected-access
       ('detour', lambda m: pg.detour(m), [[(SrcA, DstB)], [(SrcA, DstC)], [(SrcA, raising_dst)], [(SrcA, ok_dst)]],
        lambda: {k.__name__: getattr(v, '__name__', str(v)) for k, v in class_detour.current_mappings().items()}, 'detour', {}),
       ('timeit', pg_timing.timeit, ['t1', 't2'], _timing_name, 'timeit', ()),
@@ -162,6 +169,16 @@ def _expected(name, rule, default, stack):
     out = {}
     for kw in mine:
       out.update(kw)
+    return out
+  if rule == 'deep_merge':
+    def dm(a, b):
+      out = dict(a)
+      for k, v in b.items():
+        out[k] = dm(out[k], v) if isinstance(v, dict) and isinstance(out.get(k), dict) else (dict(v) if isinstance(v, dict) else v)
+      return out
+    out = {}
+    for kw in mine:
+      out = dm(out, kw)
     return out
   if rule == 'cascade':
     for v, cascade in mine:
